@@ -416,6 +416,7 @@ structure PState where
   out : Str := []
   map : List Entry := []
   line : Nat := 0
+  lastOpen : Bool := false     -- the last emitted line has no terminating newline
 
 def mkErr (k : ErrKind) (file : String) (line : Nat) (inc : Option (String × Nat)) (msg : String) : Outcome :=
   .err { kind := k, file := file, line := line, inc := inc, msg := msg }
@@ -428,7 +429,7 @@ def processLines (files : Files) (recur : Recur) (file : String) (inc : Option (
   | fuel, ls, st =>
       match fuel, ls with
       | 0, _ => .diverge
-      | _, [] => .ok st.out st.map st.ctx
+      | _, [] => .ok (if st.lastOpen && inc.isSome then st.out ++ ['\n'] else st.out) st.map st.ctx
       | f + 1, l :: rest =>
         let (buf, n, rest') := spliceGroup (rest.length + 1) l 1 rest
         let line := st.line + n
@@ -547,7 +548,8 @@ def processLines (files : Files) (recur : Recur) (file : String) (inc : Option (
               else if active then
                 let e1 : Entry := { file := file, line := line, inc := inc }
                 let text := if !endsWith newLine ['\n'] && hasLf then newLine ++ ['\n'] else newLine
-                processLines files recur file inc asm f rest' { st with out := st.out ++ text, map := st.map ++ [e1] }
+                let st3 : PState := { st with out := st.out ++ text, map := st.map ++ [e1], lastOpen := !endsWith newLine ['\n'] && !hasLf }
+                processLines files recur file inc asm f rest' st3
               else processLines files recur file inc asm f rest' st
 
 /-- `process` for one file (recursive on `#include` through `depth`) -/
